@@ -135,6 +135,25 @@ def _one(c):
     cmp(f'{op}:2d', got[:, 1, :], 2 * (M @ X), scale=2 * S @ np.abs(X))
    Gd = np.einsum('rsa,a->rs', np.array(_mat(tab['GeoDense'])).reshape(K, K, K), dlog)
    cmp('GeoWeights', pe.get_geopotential_weights(coords, R), R * Gd, scale=R * np.abs(Gd).sum())
+   # the full geopotential: surface geopotential + R * trapezoid rule of the full (virtual) temperature
+   grav, tref = 1.7, np.linspace(2.0, 3.0, K)
+   oro = 0.5 * X[:1]                                                  # 1 x N, the [0, 0] entry is the mean
+   if hasattr(pe, 'get_geopotential'):
+     Tfull = X.copy()
+     Tfull[:, 0] += math.sqrt(4 * math.pi) * tref                      # reference temperature enters the (0, 0) coefficient
+     got = np.asarray(pe.get_geopotential(jnp.asarray(X[:, None, :]), tref, jnp.asarray(oro), coords, grav, R))[:, 0, :]
+     # the library spells sqrt(4 pi) with eight digits (3.5449077, relative error 5.1e-10): that much of the reference part is
+     # not owed (float32-grade constant, see DESIGN section 13); everything else is at rounding level
+     ref_part = np.zeros_like(X); ref_part[:, 0] = math.sqrt(4 * math.pi) * tref
+     cmp('Geopotential', got, grav * oro + (R * Gd) @ Tfull,
+         scale=grav * np.abs(oro) + (R * np.abs(Gd)) @ np.abs(Tfull) + (1e-9 / (16 * EPS)) * (R * np.abs(Gd)) @ ref_part)
+   if hasattr(pe, 'get_geopotential_with_moisture'):
+     q = 0.01 * (1.0 + np.cos(X))
+     Rv = 1.6 * R
+     Tv = X * (1 + (Rv / R - 1) * q)
+     got = np.asarray(pe.get_geopotential_with_moisture(jnp.asarray(X[:, None, :]), jnp.asarray(q[:, None, :]), jnp.asarray(oro), coords,
+                                                        grav, R, Rv))[:, 0, :]
+     cmp('GeopotentialMoist', got, grav * oro + (R * Gd) @ Tv, scale=grav * np.abs(oro) + (R * np.abs(Gd)) @ np.abs(Tv))
   alpha = np.array([dlog[k] / 2 for k in range(K - 1)] + [dlog[K - 1]])
   cmp('SigmaRatios', pe.get_sigma_ratios(coords), alpha, scale=np.abs(alpha))
   # attributes of the level set
